@@ -190,7 +190,7 @@ func (c *Ctx) runTLC(j TLCJob) TLCResult {
 		os.Remove(j.OutFile)
 		args = append(args, "-Dverif.out="+j.OutFile)
 	}
-	args = append(args, "-Dverif.seed="+strconv.Itoa(c.Seed))
+	args = append(args, "-Dverif.seed="+strconv.Itoa(c.Seed), "-Dfile.encoding=UTF-8") // JSON traces carry Bangla names: without this the JVM reads them as U+FFFD
 	for k, v := range j.Defs {
 		args = append(args, "-D"+k+"="+v)
 	}
@@ -454,6 +454,7 @@ func main() {
 			runReplay(c, replay)
 			return
 		}
+		os.RemoveAll(filepath.Join(verifRoot, "replays", prop)) // replay files of earlier runs are stale
 		fn(c)
 	}()
 	code = c.finish(replay != "")
